@@ -46,6 +46,9 @@ pub struct Cfg {
     pub nks: usize,
     /// values carry their provenance `<keyspace><incarnation>#<n>` (C12)
     pub prov: bool,
+    /// `max_journaling_size` at its minimum (64 MiB = one preallocated journal): every journal rotation finds the
+    /// journals "too big" and asks the keyspaces holding back the oldest one to rotate their memtables
+    pub maxj: bool,
 }
 
 impl Cfg {
@@ -59,12 +62,14 @@ impl Cfg {
             manual_persist: false,
             nks: 2,
             prov: false,
+            maxj: false,
         }
     }
     pub fn name(&self) -> String {
         format!(
-            "{:?}/{}{}{:?}/{}{}/ks{}",
+            "{:?}/{}{}{}{:?}/{}{}/ks{}",
             self.kind,
+            if self.maxj { "small-journal-limit," } else { "" },
             if self.blob { "blob," } else { "" },
             if self.tiny { "tiny," } else { "" },
             self.strat,
@@ -75,13 +80,13 @@ impl Cfg {
     }
     pub fn to_spec(&self) -> String {
         format!(
-            "{:?},{},{},{:?},{},{},{},{}",
-            self.kind, self.blob as u8, self.tiny as u8, self.strat, self.lz4 as u8, self.manual_persist as u8, self.nks, self.prov as u8
+            "{:?},{},{},{:?},{},{},{},{},{}",
+            self.kind, self.blob as u8, self.tiny as u8, self.strat, self.lz4 as u8, self.manual_persist as u8, self.nks, self.prov as u8, self.maxj as u8
         )
     }
     pub fn from_spec(s: &str) -> Option<Cfg> {
         let f: Vec<&str> = s.split(',').collect();
-        if f.len() != 7 && f.len() != 8 {
+        if f.len() < 7 || f.len() > 9 {
             return None;
         }
         Some(Cfg {
@@ -103,6 +108,7 @@ impl Cfg {
             manual_persist: f[5] == "1",
             nks: f[6].parse().ok()?,
             prov: f.get(7).map(|x| *x == "1").unwrap_or(false),
+            maxj: f.get(8).map(|x| *x == "1").unwrap_or(false),
         })
     }
     pub fn ks_opts(&self) -> KeyspaceCreateOptions {
@@ -488,6 +494,9 @@ pub fn open_db(dir: &Path, cfg: &Cfg, filter: &Option<fjall_filter::Assigner>) -
                 });
             if let Some(f) = filter {
                 b = b.with_compaction_filter_factories(f.clone());
+            }
+            if cfg.maxj || std::env::var("FJV_MAXJ").is_ok() {
+                b = b.max_journaling_size(64 * 1_024 * 1_024);
             }
             b.open()
         }};
